@@ -496,4 +496,167 @@ theorem cbcDecryptA_refines (C : Cipher) (m : Mem) (dst ct key iv : Win) (lay : 
   | err e => rw [hu] at hrun; rw [hrun]; exact ⟨hrd, rfl⟩
   | panic => rw [hu] at hrun; rw [hrun]; exact ⟨hrd, rfl⟩
 
+/-! ### PKCS#7 helpers at buffer level, every block size -/
+
+/-- `PKCS7Padding` for EVERY block size (any `int`) and every outcome: the only cells it can write
+are the spare capacity of `data` — `[off+len, off+cap)` — so `data[0:len]` itself and everything
+outside the slice's capacity are untouched; and the slice it returns holds exactly what the
+value-level `pkcs7Padding` computes (data followed by the padding), whether `append` stayed in
+place or allocated. -/
+theorem pkcs7PaddingA_spec (m : Mem) (data : Win) (b : Int) (hd : data.wf m) :
+    WritesWithin m (pkcs7PaddingA m data b).1 (data.off + data.len) (data.off + data.cap) ∧
+    (pkcs7PaddingA m data b).1.rd data = m.rd data ∧
+    (match (pkcs7PaddingA m data b).2, pkcs7Padding (m.rd data) b with
+      | .ok sl, .ok x => sl.content (pkcs7PaddingA m data b).1 = x
+      | .err e, .err e' => e = e'
+      | .panic, .panic => True
+      | _, _ => False) := by
+  obtain ⟨hdc, hdm⟩ := hd
+  have hrl : (m.rd data).length = data.len := rd_length m data (by omega)
+  unfold pkcs7PaddingA pkcs7Padding
+  rw [hrl]
+  by_cases h0 : data.len = 0
+  · simp only [h0, if_true]; refine ⟨writesWithin_refl m _ _, ?_, ?_⟩ <;> first | trivial | rfl
+  · simp only [h0, if_false]
+    by_cases hb : b ≤ 0
+    · simp only [hb, if_true]; refine ⟨writesWithin_refl m _ _, ?_, ?_⟩ <;> first | trivial | rfl
+    · simp only [hb, if_false]
+      cases hp : goRepeat (toByte (b - Int.tmod data.len b).toNat) (b - Int.tmod data.len b) with
+      | none => exact ⟨writesWithin_refl m _ _, rfl, trivial⟩
+      | some pad =>
+        simp only []
+        by_cases hfit : data.len + pad.length ≤ data.cap
+        · simp only [hfit, if_true]
+          have hw := wr_within m (data.off + data.len) pad (data.off + data.len) (data.off + data.cap)
+            (by omega) (Nat.le_refl _) (by omega)
+          have hsame : (m.wr (data.off + data.len) pad).rd data = m.rd data :=
+            wr_rd_other m _ pad data (by omega) (Or.inl (Nat.le_refl _))
+          refine ⟨hw, hsame, ?_⟩
+          simp only [Slice.content, Mem.rd, Mem.wr]
+          have h1 : (m.cells.take (data.off + data.len)).length = data.off + data.len := by simp; omega
+          apply List.ext_getElem?
+          intro i
+          simp only [List.getElem?_take, List.getElem?_drop, List.getElem?_append, List.length_take,
+            List.length_drop, List.length_append]
+          grind
+        · simp only [hfit, if_false]
+          refine ⟨writesWithin_refl m _ _, ?_, ?_⟩ <;> first | trivial | rfl
+
+/-- `PKCS7UnPadding` writes nothing, for every block size and every input; what it returns is a
+prefix window of `data` holding the value-level result. -/
+theorem pkcs7UnPaddingPubA_spec (m : Mem) (data : Win) (b : Int) (hd : data.off + data.len ≤ m.cells.length) :
+    (pkcs7UnPaddingPubA m data b).1 = m ∧
+    (∀ w, (pkcs7UnPaddingPubA m data b).2 = .ok w →
+      w.off = data.off ∧ w.len ≤ data.len ∧ pkcs7UnPaddingPub (m.rd data) b = .ok (m.rd w)) := by
+  unfold pkcs7UnPaddingPubA
+  cases hr : pkcs7UnPaddingPub (m.rd data) b with
+  | panic => exact ⟨rfl, fun w h => by cases h⟩
+  | err e => exact ⟨rfl, fun w h => by cases h⟩
+  | ok d =>
+    refine ⟨rfl, fun w h => ?_⟩
+    injection h with h
+    subst h
+    -- d is a prefix of the data
+    have hpre : d = (m.rd data).take d.length ∧ d.length ≤ (m.rd data).length := by
+      obtain ⟨n, hx, _⟩ := (unpad_sound (m.rd data) b).2 d hr
+      constructor
+      · conv => rhs; rw [hx]
+        simp
+      · rw [hx]; simp
+    have hrl : (m.rd data).length = data.len := rd_length m data hd
+    refine ⟨rfl, by simp only []; omega, ?_⟩
+    have : m.rd { data with len := d.length } = (m.rd data).take d.length := by
+      simp only [Mem.rd, List.take_take]
+      congr 1; omega
+    rw [this, ← hpre.1]
+
+/-! ### what a failed decryption leaves behind -/
+
+/-- `AESGCMDecrypt` whose authentication fails, `dst` sized by the helper, documented layouts:
+returns the "open" error and `dst` holds ZEROS (`Open` clears its output) — neither the old
+content of `dst` nor any unauthenticated plaintext. -/
+theorem gcmDecryptA_failed_leaves_zeros (A : AEAD) (m : Mem) (dst ct key nonce ad : Win)
+    (hd : dst.wf m) (hk : keyOK (m.rd key) = true) (hn : 0 < nonce.len)
+    (hsz : dst.len + gcmTagSize = ct.len) (hct : disjoint dst ct ∨ ct.off = dst.off)
+    (ho : A.openF (m.rd key) (m.rd nonce) (m.rd ct) (m.rd ad) = none) :
+    (aesGCMDecryptA A m dst ct key nonce ad).2 = .err "open" ∧
+    (aesGCMDecryptA A m dst ct key nonce ad).1.rd dst = List.replicate dst.len 0 := by
+  obtain ⟨hdc, hdm⟩ := hd
+  simp only [gcmTagSize] at hsz
+  have hk' : ¬ (¬ keyOK (m.rd key) = true) := by simp [hk]
+  have hn' : ¬ nonce.len = 0 := by omega
+  have hshort : ¬ ct.len < gcmTagSize := by simp only [gcmTagSize]; omega
+  have hfit : fitsCap dst (ct.len - gcmTagSize) = true := by simp [fitsCap, gcmTagSize]; omega
+  have hov : inexactOverlap { dst with len := ct.len - gcmTagSize } ct = false := by
+    apply inexact_false_of
+    rcases hct with h | h
+    · left; unfold disjoint at h ⊢; simp only [gcmTagSize]; omega
+    · right; exact h
+  have hrun : aesGCMDecryptA A m dst ct key nonce ad =
+      (m.wr dst.off (List.replicate (ct.len - gcmTagSize) 0), .err "open") := by
+    unfold aesGCMDecryptA
+    simp only []
+    rw [if_neg hk', if_neg hn', if_neg hshort, if_pos hfit, hov, ho]
+    simp
+  rw [hrun]
+  have hl : ct.len - gcmTagSize = dst.len := by simp only [gcmTagSize]; omega
+  rw [hl]
+  exact ⟨rfl, wr_rd_same m dst _ (by simp) (by omega)⟩
+
+/-- calls rejected for their ARGUMENTS write nothing at all -/
+theorem rejected_calls_write_nothing (C : Cipher) (A : AEAD) (m : Mem) (dst src key iv ad : Win) :
+    ((src.len < 16 ∨ src.len % 16 ≠ 0 ∨ keyOK (m.rd key) = false) →
+      (aesCBCDecryptA C m dst src key iv).1 = m ∧ ∃ e, (aesCBCDecryptA C m dst src key iv).2 = .err e) ∧
+    (keyOK (m.rd key) = false → (aesCBCEncryptA C m dst src key iv).1 = m ∧
+      (aesCBCEncryptA C m dst src key iv).2 = .err "key") ∧
+    ((keyOK (m.rd key) = false ∨ iv.len = 0) →
+      (aesGCMEncryptA A m dst src key iv ad).1 = m ∧ ∃ e, (aesGCMEncryptA A m dst src key iv ad).2 = .err e) ∧
+    ((keyOK (m.rd key) = false ∨ iv.len = 0 ∨ src.len < 16) →
+      (aesGCMDecryptA A m dst src key iv ad).1 = m ∧ ∃ e, (aesGCMDecryptA A m dst src key iv ad).2 = .err e) := by
+  refine ⟨?_, ?_, ?_, ?_⟩
+  · intro h
+    unfold aesCBCDecryptA
+    by_cases hl : src.len < aesBlockSize ∨ src.len &&& blockSizeMask ≠ 0
+    · rw [if_pos hl]; exact ⟨rfl, _, rfl⟩
+    · rw [if_neg hl]
+      have hk : keyOK (m.rd key) = false := by
+        rw [and15] at hl; simp only [aesBlockSize] at hl
+        rcases h with h | h | h
+        · omega
+        · omega
+        · exact h
+      simp only [hk]
+      exact ⟨rfl, _, rfl⟩
+  · intro hk
+    unfold aesCBCEncryptA
+    simp only [hk]
+    exact ⟨rfl, rfl⟩
+  · intro h
+    unfold aesGCMEncryptA
+    simp only []
+    by_cases hk : keyOK (m.rd key) = true
+    · have hn : iv.len = 0 := by rcases h with h | h; (rw [hk] at h; cases h); exact h
+      simp only [hk, hn]
+      exact ⟨rfl, _, rfl⟩
+    · have hk' : keyOK (m.rd key) = false := by simpa using hk
+      simp only [hk']
+      exact ⟨rfl, _, rfl⟩
+  · intro h
+    unfold aesGCMDecryptA
+    simp only []
+    by_cases hk : keyOK (m.rd key) = true
+    · by_cases hn : iv.len = 0
+      · simp only [hk, hn]; exact ⟨rfl, _, rfl⟩
+      · have hs : src.len < gcmTagSize := by
+          simp only [gcmTagSize]
+          rcases h with h | h | h
+          · rw [hk] at h; cases h
+          · exact absurd h hn
+          · exact h
+        simp only [hk, hn, hs]
+        exact ⟨rfl, _, rfl⟩
+    · have hk' : keyOK (m.rd key) = false := by simpa using hk
+      simp only [hk']
+      exact ⟨rfl, _, rfl⟩
+
 end Golib.C08.Arena
